@@ -147,6 +147,17 @@ func c20AdapterRun(s []byte, auth bool) {
 		if ref.atyp != 3 {
 			host = net.IP(ref.addr).String()
 		}
+		// (cover points before the assertion: counterexamples are kept per class of path)
+		switch {
+		case ref.atyp == 3 && (len(ref.addr) == 4 || len(ref.addr) == 16):
+			verif_Cover("C20.ad.class.domain_of_ip_length")
+		case ref.atyp == 3:
+			verif_Cover("C20.ad.class.domain")
+		case ref.atyp == 1:
+			verif_Cover("C20.ad.class.ipv4")
+		default:
+			verif_Cover("C20.ad.class.ipv6")
+		}
 		verif_Assert("C20.ad.target", verif_StrEq(target, fmt.Sprintf("%s:%d", host, ref.port)))
 		if ref.atyp == 3 {
 			verif_Cover("C20.ad.accept.domain")
